@@ -36,6 +36,7 @@ type c12Flavor struct {
 	Backend  string `json:"backend"`                  // udp | tcp
 	Branch   string `json:"branch,omitempty"`         // "" pairwise unrelated | prefix: every branch is a proper prefix of the next one
 	DT       int    `json:"dialog_timeout,omitempty"` // dialogTimeout of the service in seconds (0 = not configured)
+	Answer   string `json:"answer,omitempty"`         // how the backend answers: "" from its configured address with the Via lines as received | foreign: from another port of its host | joined: all Via values in one line | foreign+joined
 }
 
 func (f c12Flavor) String() string {
@@ -45,6 +46,9 @@ func (f c12Flavor) String() string {
 	}
 	if f.DT != 0 {
 		s += fmt.Sprintf(",dialogTimeout=%d", f.DT)
+	}
+	if f.Answer != "" {
+		s += ",answer=" + f.Answer
 	}
 	return s
 }
@@ -162,8 +166,30 @@ func c12Exec(fl c12Flavor, nconn int, hist []c12Ev) (string, string, string) {
 				x.nfinal++
 			}
 			r := ResponseTo(x.relayed, ev.Code, fmt.Sprintf("t%d%d", ev.K, ev.T))
+			if strings.Contains(fl.Answer, "joined") {
+				// the backend echoes the Via values joined into one header line
+				var vals []string
+				var rest []WHdr
+				at := -1
+				for i, h := range r.Hdrs {
+					if canonName(h.Name) == "via" {
+						vals = append(vals, h.Value)
+						if at < 0 {
+							at = i
+						}
+					} else {
+						rest = append(rest, h)
+					}
+				}
+				if at >= 0 {
+					r.Hdrs = append(append(append([]WHdr{}, rest[:at]...), WHdr{"Via", strings.Join(vals, ", ")}), rest[at:]...)
+				}
+			}
 			if x.bconn != nil {
 				w.SendTCP(x.bconn, r.Render())
+			} else if strings.Contains(fl.Answer, "foreign") {
+				// the answer leaves the backend host from another port than the configured one
+				w.SendUDP(strings.Split(x.backend, ":")[0]+":7099", "127.0.0.1:5060", r.Render())
 			} else {
 				w.SendUDP(x.backend, "127.0.0.1:5060", r.Render())
 			}
@@ -296,7 +322,7 @@ func c12Run(c *Ctx) {
 		for _, sb := range []string{"same", "different", "table-name", "unknown-name", "true-port"} {
 			for _, rp := range []bool{true, false} {
 				for _, be := range []string{"udp", "tcp"} {
-					flavors = append(flavors, c12Flavor{rc, sb, rp, be, "", 0})
+					flavors = append(flavors, c12Flavor{rc, sb, rp, be, "", 0, ""})
 				}
 			}
 		}
@@ -305,7 +331,7 @@ func c12Run(c *Ctx) {
 		for _, sb := range []string{"same", "table-name"} {
 			for _, rp := range []bool{true, false} {
 				for _, be := range []string{"udp", "tcp"} {
-					flavors = append(flavors, c12Flavor{rc, sb, rp, be, "prefix", 0})
+					flavors = append(flavors, c12Flavor{rc, sb, rp, be, "prefix", 0, ""})
 				}
 			}
 		}
@@ -315,6 +341,51 @@ func c12Run(c *Ctx) {
 	busy := 1200
 	if c.Thorough() {
 		busy = 6000
+	}
+	// answers that come from another port of the backend host and / or carry all Via values in one line
+	for fi, fl := range flavors {
+		if fl.Branch != "" || !c.Mine(int64(fi+5)) {
+			continue
+		}
+		for _, ans := range []string{"foreign", "joined", "foreign+joined"} {
+			if fl.Backend == "tcp" && ans != "joined" {
+				continue
+			}
+			f2 := fl
+			f2.Answer = ans
+			for _, h := range [][]c12Ev{
+				{{"req", 0, 0, 0}, {"req", 1, 0, 0}, {"ans", 0, 0, 180}, {"ans", 1, 0, 200}, {"ans", 0, 0, 200}},
+				{{"req", 0, 0, 0}, {"req", 1, 0, 0}, {"req", 0, 1, 0}, {"ans", 1, 0, 180}, {"ans", 0, 1, 200}, {"ans", 0, 0, 200}, {"ans", 1, 0, 200}}} {
+				_, cl, detail := c12Exec(f2, 2, h)
+				c.Res.Executions++
+				c.Res.Evaluations++
+				c.Res.Nontrivial++
+				c.Res.Transitions += int64(len(h))
+				if cl != "" && cl != "invalid" {
+					c.Violate(cl+"|"+f2.String(), cl, detail, c12Case{f2, 2, h})
+				}
+			}
+		}
+	}
+	// a table that fills up with LIVE entries: one transaction waits while another connection sends
+	// `busy` requests that stay unanswered; then the delayed 180 and 200 arrive
+	for fi, fl := range flavors {
+		if fl.Backend != "udp" || fl.Branch != "" || fl.SentBy != "different" || !c.Mine(int64(fi+9)) {
+			continue
+		}
+		h := []c12Ev{{"req", 0, 0, 0}}
+		for i := 0; i < busy; i++ {
+			h = append(h, c12Ev{"req", 1, 2 + i, 0})
+		}
+		h = append(h, c12Ev{"ans", 0, 0, 180}, c12Ev{"ans", 0, 0, 200})
+		_, cl, detail := c12Exec(fl, 2, h)
+		c.Res.Executions++
+		c.Res.Evaluations++
+		c.Res.Nontrivial++
+		c.Res.Transitions += int64(len(h))
+		if cl != "" && cl != "invalid" {
+			c.Violate(cl+"|"+fl.String()+"|unanswered-load", cl, fmt.Sprintf("%d unanswered transactions on connection 1 while (c0,t0) waits: %s", busy, clip(detail, 1500)), c12Case{fl, 2, h})
+		}
 	}
 	// slow answers: the clock advances (2 s ... 1000 s, less than an hour in total) between the
 	// request, its 180 and its 200, under a short, a medium and no configured dialogTimeout
@@ -410,7 +481,7 @@ func c12Run(c *Ctx) {
 
 func init() {
 	addCheck(&Check{ID: "C12", Level: "model_checking",
-		Rule:   "explicit-state BFS by replay (depth 6 with 2 client connections; thorough depth 7 with 3), all connections from 127.0.0.1 to one listener, two transactions per connection with pairwise distinct branches: events {connection k sends request t, backend answers (k,t) with 180, with 200, with a second 200} in every order, crossed with 40 flavours: received-support on/off x Via sent-by {same for all connections, different, host-table name, unknown name, equal to the true peer port} x rport requested or not x UDP or TCP backends, plus 16 flavours in which every branch is a proper prefix of the next (un-padded counters); plus, per UDP-backend flavour, a busy period: one transaction waits while another connection completes 1200 (thorough 6000) transactions, then its 180 and 200 arrive; plus a service with two listens entries whose next hop was learned through the other entry (tracked finding); plus slow answers (clock steps of 2-1000 s between request, 180 and 200) under dialogTimeout none / 1 / 30 s for all 40 flavours; oracle: every provisional and the first final response is written on the connection that carried its request, on no other, and no connection is dialled; later finals are don't-cares; schedules: see the race tier; non-trivial = history longer than one event",
+		Rule:   "explicit-state BFS by replay (depth 6 with 2 client connections; thorough depth 7 with 3), all connections from 127.0.0.1 to one listener, two transactions per connection with pairwise distinct branches: events {connection k sends request t, backend answers (k,t) with 180, with 200, with a second 200} in every order, crossed with 40 flavours: received-support on/off x Via sent-by {same for all connections, different, host-table name, unknown name, equal to the true peer port} x rport requested or not x UDP or TCP backends, plus 16 flavours in which every branch is a proper prefix of the next (un-padded counters); plus, per UDP-backend flavour, a busy period: one transaction waits while another connection completes 1200 (thorough 6000) transactions, then its 180 and 200 arrive; plus a service with two listens entries whose next hop was learned through the other entry (tracked finding); plus answers that leave the backend host from another port and / or carry all Via values in one line; plus a table filling up with 1200 (6000) LIVE entries (unanswered requests) while a transaction waits; plus slow answers (clock steps of 2-1000 s between request, 180 and 200) under dialogTimeout none / 1 / 30 s for all 40 flavours; oracle: every provisional and the first final response is written on the connection that carried its request, on no other, and no connection is dialled; later finals are don't-cares; schedules: see the race tier; non-trivial = history longer than one event",
 		Assume: []string{"connections are interchangeable: histories start with connection 0 (symmetry reduction)"},
 		Run:    c12Run,
 		Finalize: func(c *Ctx, m *Result) {
